@@ -119,6 +119,9 @@ type Action struct {
 	BeforeRespond   func()                    // called after applying, before writing
 	CorrOverride    *int32
 	RawResponse     []byte // send these bytes instead of the encoded response
+	// MutateFrame: last-minute change of the encoded response frame (fields = the reference encoder's map of its length
+	// and count fields); the frame that is returned is sent as is.
+	MutateFrame func(frame []byte, fields []refcodec.LenField) []byte
 	Tag             string // free-form, copied into the journal
 }
 
@@ -599,9 +602,13 @@ func (c *Cluster) handle(b *Broker, sc *memnet.ServerConn, st *connState, r *Req
 	frame := act.RawResponse
 	if frame == nil {
 		var err error
-		frame, _, err = refcodec.EncodeResponse(r.API, r.Version, corr, body, nil)
+		var fields []refcodec.LenField
+		frame, fields, err = refcodec.EncodeResponse(r.API, r.Version, corr, body, nil)
 		if err != nil {
 			panic(fmt.Sprintf("fakecluster: cannot encode %s v%d response: %v (body %v)", r.API.Name, r.Version, err, body))
+		}
+		if act.MutateFrame != nil {
+			frame = act.MutateFrame(frame, fields)
 		}
 	}
 	if act.Hold != nil {
